@@ -842,4 +842,54 @@ pub fn tokenize(out: &[u8]) -> Result<Vec<Ev>, String> {
     Ok(normalise(&evs))
 }
 
-pub fn c10_random_programs(_ctx: &Ctx) {}
+/// C10 (b): generated whole programs are run, in-process and through the CLI; any
+/// "Internal Error : Should not have reached here" text is a violation
+pub fn c10_random_programs(ctx: &Ctx) {
+    use crate::cli::*;
+    use crate::clicheck::*;
+    use crate::gen::*;
+    use proptest::prelude::*;
+    use serde_json::json;
+    if !cli_available() {
+        ctx.harness_error("CLI binary not built");
+        return;
+    }
+    let mk = || {
+        (gencfg_s(24, 4), proptest::collection::vec(any::<u8>(), 24), any::<bool>()).prop_map(|(mut g, ch, comments)| {
+            g.with_prints = true;
+            (g, ch, comments)
+        })
+    };
+    let n = ctx.tier.pick(500usize, 20_000usize);
+    run_cases(
+        ctx,
+        "c10-programs",
+        n,
+        mk,
+        |(g, ch, comments)| {
+            let prog = build_program(g);
+            let r = render_program(&prog, &Layout { choices: ch.clone(), comments: *comments, trailing_newline: true, pack_lines: false });
+            let out = run_cli(r.text.as_bytes(), Stdin::Closed, false, 4 << 20, 20_000);
+            let replay = json!({"kind":"cli","source":r.text,"stdin":"","interpreted":false,"forbid":["Internal Error"]});
+            if matches!(out.status, Status::Timeout | Status::SpawnError(_)) {
+                return CaseOutcome::Inconclusive(format!("{:?}", out.status));
+            }
+            let s = out.out_str();
+            if s.contains("Syntax Error") || s.contains("used but not defined") || s.contains("necessary label") {
+                return CaseOutcome::Fail { key: "c10|programs|generator-rejected".into(), what: format!("generated program was not accepted: {}", s.lines().take(2).collect::<Vec<_>>().join(" / ")), replay };
+            }
+            if s.contains("Internal Error") {
+                if s.contains("ret is encountered without corresponding call") {
+                    return CaseOutcome::Known("c10|internal-error|ret-without-call".into());
+                }
+                return CaseOutcome::Fail { key: "c10|programs|internal-error".into(), what: format!("accepted program reached an internal-error path: {}", s.lines().filter(|l| l.contains("Error")).take(2).collect::<Vec<_>>().join(" / ")), replay };
+            }
+            if !out.clean() {
+                return CaseOutcome::Fail { key: "c10|programs|abnormal-exit".into(), what: format!("status {:?} {}", out.status, out.err_str().lines().next().unwrap_or("")), replay };
+            }
+            let distinct = prog.code.len() >= 3;
+            CaseOutcome::Pass { nontrivial: distinct, classes: vec!["c10/program-run".into()], digest: fnv_str(&r.text) }
+        },
+        |(g, ch, comments)| json!({"source": render_program(&build_program(g), &Layout { choices: ch.clone(), comments: *comments, trailing_newline: true, pack_lines: false }).text}),
+    );
+}
